@@ -4,6 +4,7 @@ import (
 	"fmt"
 	"net/http"
 	"net/url"
+	"sort"
 	"strconv"
 	"strings"
 	"testing"
@@ -22,14 +23,24 @@ var c18Cfgs = map[string]Cfg{
 	"star-headers-credentialed": {Origins: SS("https://example.com"), Credentialed: true, Methods: SS("*"), RequestHeaders: SS("*"), Status: 200},
 	"no-headers-configured":     {Origins: SS("https://example.com"), Methods: SS("PUT")},
 	"pna-nocors":                {Origins: SS("https://example.com"), PNANoCORS: true, RequestHeaders: SS("X-Foo")},
+	"discrete-many-headers":     {Origins: SS("https://example.com", "https://*.example.com:*"), Methods: SS("PUT"), RequestHeaders: c18ManyNames(), ResponseHeaders: SS("X-Resp")},
 }
 
-var c18CfgKinds = []string{"allow-all", "discrete", "discrete-credentialed", "star-headers-anon", "star-headers-anon-auth", "star-headers-credentialed", "no-headers-configured", "pna-nocors"}
+// 40 allowed request-header names, x-foo and x-bar among them
+func c18ManyNames() []Str {
+	out := SS("X-Foo", "X-Bar")
+	for i := 0; i < 38; i++ {
+		out = append(out, Str(fmt.Sprintf("X-Many-%02d", i)))
+	}
+	return out
+}
+
+var c18CfgKinds = []string{"discrete-many-headers", "allow-all", "discrete", "discrete-credentialed", "star-headers-anon", "star-headers-anon-auth", "star-headers-credentialed", "no-headers-configured", "pna-nocors"}
 
 var c18Shapes = []string{"actual-get-allowed", "actual-get-disallowed", "actual-options", "non-cors-get", "preflight-ok", "preflight-bad-origin", "preflight-acrpn", "preflight-bad-method", "preflight-bad-headers"}
 
 var c18Fields = []string{"origin-length", "origin-labels", "origin-punycode-labels", "origin-values", "acrm-length", "acrh-line-length", "acrh-junk-length", "acrh-elements", "acrh-empty-elements", "acrh-lines", "acrh-ows", "acrpn-values", "acrpn-length", "other-header-values",
-	"acrm-values", "other-header-count", "target-length", "method-length", "host-length"}
+	"acrm-values", "other-header-count", "target-length", "method-length", "host-length", "acrh-distinct-elements"}
 
 type C18Case struct {
 	CfgKind string `json:"config_kind"`
@@ -76,6 +87,8 @@ func c18Scales(field string) []int {
 		return c18Counts
 	case "other-header-count":
 		return []int{1, 100, 1000, 20_000}
+	case "acrh-distinct-elements":
+		return []int{1, 10, 40, 100_000}
 	case "origin-labels":
 		return []int{1, 10, 100, 100_000} // 100 labels still fit the 253-byte host limit; 100 000 do not
 	case "origin-punycode-labels":
@@ -186,6 +199,19 @@ func c18Request(shape, field, fl string, n int) *http.Request {
 		h["Accept-Encoding"] = vs
 	case "acrh-ows":
 		h[hACRH] = []string{flavour("x-bar,", fl) + strings.Repeat(" ", n) + flavour("x-foo", fl)}
+	case "acrh-distinct-elements":
+		// up to 40 DISTINCT names in sorted order (all of them allowed by the many-headers configuration), then repeats of the last one
+		names := make([]string, 0, 40)
+		for _, x := range c18ManyNames() {
+			names = append(names, strings.ToLower(string(x)))
+		}
+		sort.Strings(names)
+		list := names[:min(n, len(names))]
+		v := strings.Join(list, ",")
+		if n > len(names) {
+			v += strings.Repeat(","+names[len(names)-1], min(n-len(names), 5000))
+		}
+		h[hACRH] = []string{flavour(v, fl)}
 	case "acrm-values":
 		// many Access-Control-Request-Method field lines (only the first one counts)
 		first := "GET"
@@ -230,9 +256,19 @@ func (a *allocRec) Write(p []byte) (int, error) { return len(p), nil }
 
 var noopHandler = http.HandlerFunc(func(http.ResponseWriter, *http.Request) {})
 
-const c18Bound = 8
+const (
+	c18Bound = 16 // the "small constant": the unchanged library needs 0-2
+	c18Step  = 3
+)
 
 func c18Gen(t *rapid.T) C18Case {
+	if chance(t, "hot", 40) {
+		// the cells where the request-header list is actually read: a third of the quick budget goes there
+		return C18Case{CfgKind: pick(t, "hotcfg", []string{"discrete-many-headers", "discrete-many-headers", "discrete", "discrete-credentialed", "star-headers-credentialed", "allow-all"}), Debug: chance(t, "hotdebug", 35),
+			Shape:  pick(t, "hotshape", []string{"preflight-ok", "preflight-ok", "preflight-bad-headers", "preflight-acrpn"}),
+			Field:  pick(t, "hotfield", []string{"acrh-distinct-elements", "acrh-distinct-elements", "acrh-elements", "acrh-lines", "acrh-line-length", "acrh-empty-elements", "acrh-ows", "acrh-junk-length"}),
+			Flavor: pick(t, "hotflavor", c18Flavors)}
+	}
 	return C18Case{CfgKind: pick(t, "cfg", c18CfgKinds), Debug: chance(t, "debug", 50), Shape: pick(t, "shape", c18Shapes), Field: pick(t, "field", c18Fields), Flavor: pick(t, "flavor", c18Flavors)}
 }
 
@@ -267,7 +303,11 @@ func c18Check(c C18Case, rec *Recorder) *Disc {
 			return discf("config %s debug=%v shape %s flavour %s: %v heap allocations per request with %s scaled to %d (bound %d); allocations by scale %v: %v", c.CfgKind, c.Debug, c.Shape, c.Flavor, a, c.Field, scales[i], c18Bound, scales, allocs)
 		}
 	}
-	if allocs[len(allocs)-1] > allocs[0] {
+	// no growth: a bounded step is tolerated (an implementation may take a cheaper path for the smallest
+	// input), continued growth is not: nothing more at the largest scale than at the one before it, and at
+	// most c18Step more than at the smallest
+	last := len(allocs) - 1
+	if allocs[last] > allocs[last-1] || allocs[last] > allocs[0]+c18Step {
 		return discf("config %s debug=%v shape %s flavour %s: allocations grow with %s: %v at scales %v", c.CfgKind, c.Debug, c.Shape, c.Flavor, c.Field, allocs, scales)
 	}
 	return nil
@@ -275,9 +315,9 @@ func c18Check(c C18Case, rec *Recorder) *Disc {
 
 func TestC18(t *testing.T) {
 	Prop[C18Case]{ID: "C18", Gen: c18Gen, Check: c18Check,
-		Rule: "generator: configuration kind in {allow-all, discrete, discrete+credentialed+PNA, * headers anonymous with/without Authorization, * headers credentialed, no headers configured, no-cors-only PNA} x debug x request shape in {actual allowed/disallowed, actual OPTIONS, non-CORS, preflight succeeding / failing at origin, ACRPN, method, headers} " +
-			"x scaled field in {Origin length, Origin label count, Origin Punycode-label count, Origin value count, ACRM length, ACRH line length (valid names), ACRH junk length, ACRH element count, ACRH empty-element count, ACRH line count, OWS run, ACRPN value count, ACRPN length, value count of an unrelated header, ACRM value count, number of distinct unrelated headers (to 20 000), request-target length, method length, Host length} x content flavour in {lower case, Mixed-Case, UPPER CASE, OWS-padded} x 4 scales (1 B..1 MiB or 1..100 000 elements). " +
-			"Oracle: testing.AllocsPerRun (10 runs, GOMAXPROCS 1, reused request, reused and cleared header map, no-op handler, race detector off) <= 8 at every scale and not larger at the largest scale than at the smallest. " +
+		Rule: "generator: configuration kind in {40 discrete request-header names, allow-all, discrete, discrete+credentialed+PNA, * headers anonymous with/without Authorization, * headers credentialed, no headers configured, no-cors-only PNA} x debug x request shape in {actual allowed/disallowed, actual OPTIONS, non-CORS, preflight succeeding / failing at origin, ACRPN, method, headers} " +
+			"x scaled field in {Origin length, Origin label count, Origin Punycode-label count, Origin value count, ACRM length, ACRH line length (valid names), ACRH junk length, ACRH element count, count of DISTINCT allowed names (to 40) in sorted order, ACRH empty-element count, ACRH line count, OWS run, ACRPN value count, ACRPN length, value count of an unrelated header, ACRM value count, number of distinct unrelated headers (to 20 000), request-target length, method length, Host length} x content flavour in {lower case, Mixed-Case, UPPER CASE, OWS-padded} x 4 scales (1 B..1 MiB or 1..100 000 elements). " +
+			"Oracle: testing.AllocsPerRun (10 runs, GOMAXPROCS 1, reused request, reused and cleared header map, no-op handler, race detector off) <= 16 at every scale (the unchanged library needs 0-2), not larger at the largest scale than at the one before it, and at most 3 larger than at the smallest (a bounded step is tolerated, growth is not). " +
 			"evaluations = measured cells; non-trivial = cell with scale >= 10 KiB / 10 000 elements; distinct by (config kind, debug, shape, field, flavour, scale).",
 		Assumptions: []string{"only the allocation COUNT is judged, as the property says; a change that allocates O(n) bytes in O(1) allocations is not flagged",
 			"the response writer's header map is reused across runs, so allocations of net/http itself are not counted"}}.Run(t)
